@@ -75,6 +75,7 @@ MARK_OBLIGATIONS = [
 REFINE_OBLIGATIONS = [
     "JanetModel.Props.C06.items_are_ring_contents",
     "JanetModel.Props.C06.world_items_never_dangling",
+    "JanetModel.Props.C06.driver_rings_are_world_items",
 ]
 ENV = dict(os.environ, ASAN_OPTIONS="detect_leaks=0:abort_on_error=0", UBSAN_OPTIONS="print_stacktrace=1")
 NPROC = int(os.environ.get("VERIF_JOBS", "16"))
